@@ -51,7 +51,7 @@
    correspondence; no lemma yet that it preserves `models`), the second strategy for numeric
    quantifiers (Z3 oracle), BindExpression.to_tree_prefix (prefix trees are inputs). *)
 From Coq Require Import ZArith.
-From ISLA Require Import Semantics Eval EvalAtoms EvalFacts MatchFacts EvalMexprFacts EvalMexprCheck.
+From ISLA Require Import Semantics Eval EvalAtoms EvalFacts MatchFacts EvalMexprFacts EvalMexprCheck EvalInstFacts EvalInstCheck.
 
 (* the executable specification-side oracle decides the specification semantics *)
 Theorem C03_satb_spec : forall (A : Type) (adenote : A -> (var -> option tree) -> Prop) (c : tree)
@@ -317,3 +317,193 @@ Theorem C03_eval_mexpr_ambiguous_refuted :
   m_legacy W2_tree A_formula = Ok FF /\ models atom_denote W2_tree env_empty A_formula.
 Proof. exact eval_mexpr_ambiguous_refuted. Qed.
 Print Assumptions C03_eval_mexpr_ambiguous_refuted.
+
+(* ====================================================================================== *)
+(* Second proof extension: evaluate() / ISLaSolver.check() on the UNINSTANTIATED formula    *)
+(* (Logic/EvalInstFacts.v, EvalInstCheck.v)                                                 *)
+(* ====================================================================================== *)
+
+(* (1a) instantiate_top_level_constant preserves guard and meaning.  Scope D = dom + the constant;
+   b (cst |-> root) is the assignment of the parsed formula, b' that of the instantiated one
+   (crel: b cst = root position, b and b' agree elsewhere).  Premises on abstract atoms: what
+   SMTFormula.substitute_expressions({cst: ref}) does to free variables, openness and meaning
+   (all PROVED for the concrete family: C03_atom_inst_sound). *)
+Theorem C03_inst_const_spec :
+  forall (A : Type) (afree : A -> list var) (aopen : A -> bool) (ainst : var -> tree -> A -> res A)
+         (adenote : A -> (var -> option tree) -> Prop) (ref : tree) (cst : var),
+  uniq_ids ref -> lbl ref = vtype cst ->
+  (forall x y, ainst cst ref x = Ok y -> forall v, In v (afree y) -> In v (afree x) /\ v <> cst) ->
+  (forall x y, ainst cst ref x = Ok y -> aopen x = false -> aopen y = false) ->
+  (forall x y b b', ainst cst ref x = Ok y -> crel cst b b' ->
+     (adenote x (tenv ref b) <-> adenote y (tenv ref b'))) ->
+  forall f D dom f', scope cst D dom -> inst_const A ainst ref cst f = Ok f' -> wfm A afree aopen ref D f ->
+    wfm A afree aopen ref dom f' /\
+    forall b b', crel cst b b' -> (models adenote ref b f <-> models adenote ref b' f').
+Proof. exact inst_spec. Qed.
+Print Assumptions C03_inst_const_spec.
+
+(* (1b) evaluate() on the parsed formula = the specification's  t |= phi  (sat: [cst |-> t] |= phi).
+   Guards: those of C03_eval_correct_mexpr, stated on the UNINSTANTIATED formula with the constant
+   in scope (wfm ... [cst] f: in particular no binder re-uses the constant's name), plus
+     lbl ref = vtype cst, vk cst = VConst   (the constant is a Constant of the root's type),
+     me_nonempty f                           (every match expression has >= 1 prefix tree; below an
+                                              empty one wfm says nothing about the body, but evaluate
+                                              still dispatches on numeric quantifiers in it). *)
+Theorem C03_evaluate_correct_partial :
+  forall (A : Type) (afree : A -> list var) (aopen : A -> bool) (aeval : A -> asg -> res TV)
+         (ainst : var -> tree -> A -> res A)
+         (qmm : var -> path -> option mexpr -> asg -> path -> bool) (reach : str -> str -> bool)
+         (count_open : tree -> str -> Z -> res TV) (strategy2 : tree -> formula A -> res TV)
+         (adenote : A -> (var -> option tree) -> Prop) (ref : tree) (cst : var),
+  uniq_ids ref -> lbl ref = vtype cst -> vk cst = VConst ->
+  (forall x, exists y, ainst cst ref x = Ok y) ->
+  (forall x y, ainst cst ref x = Ok y -> forall v, In v (afree y) -> In v (afree x) /\ v <> cst) ->
+  (forall x y, ainst cst ref x = Ok y -> aopen x = false -> aopen y = false) ->
+  (forall x y b b', ainst cst ref x = Ok y -> crel cst b b' ->
+     (adenote x (tenv ref b) <-> adenote y (tenv ref b'))) ->
+  (forall x, ~ In cst (afree x) -> ainst cst ref x = Ok x) ->
+  shape_ok ref = true -> is_openT ref = false -> narrow ref -> term_leavesb ref = true ->
+  (forall x a b, inv ref a b -> (forall v, In v (afree x) -> In v (keys a)) -> aopen x = false ->
+     (aeval x a = Ok TT /\ adenote x (tenv ref b)) \/ (aeval x a = Ok FF /\ ~ adenote x (tenv ref b))) ->
+  forall f, wfm A afree aopen ref [cst] f -> me_nonempty f = true ->
+    (evaluate A afree aopen aeval ainst qmm reach count_open strategy2 ref cst f = Ok TT <-> sat adenote ref cst f) /\
+    (evaluate A afree aopen aeval ainst qmm reach count_open strategy2 ref cst f = Ok FF <-> ~ sat adenote ref cst f) /\
+    evaluate A afree aopen aeval ainst qmm reach count_open strategy2 ref cst f <> Ok UU /\
+    (forall e, evaluate A afree aopen aeval ainst qmm reach count_open strategy2 ref cst f <> Raise e).
+Proof. exact evaluate_correct. Qed.
+Print Assumptions C03_evaluate_correct_partial.
+
+(* (2) ISLaSolver.check(tree): True iff t |= phi, False iff not, never raises (UNKNOWN ->
+   UnknownResultError is impossible on closed trees in the fragment) *)
+Theorem C03_solver_check_correct_partial :
+  forall (A : Type) (afree : A -> list var) (aopen : A -> bool) (aeval : A -> asg -> res TV)
+         (ainst : var -> tree -> A -> res A)
+         (qmm : var -> path -> option mexpr -> asg -> path -> bool) (reach : str -> str -> bool)
+         (count_open : tree -> str -> Z -> res TV) (strategy2 : tree -> formula A -> res TV)
+         (adenote : A -> (var -> option tree) -> Prop) (ref : tree) (cst : var),
+  uniq_ids ref -> lbl ref = vtype cst -> vk cst = VConst ->
+  (forall x, exists y, ainst cst ref x = Ok y) ->
+  (forall x y, ainst cst ref x = Ok y -> forall v, In v (afree y) -> In v (afree x) /\ v <> cst) ->
+  (forall x y, ainst cst ref x = Ok y -> aopen x = false -> aopen y = false) ->
+  (forall x y b b', ainst cst ref x = Ok y -> crel cst b b' ->
+     (adenote x (tenv ref b) <-> adenote y (tenv ref b'))) ->
+  (forall x, ~ In cst (afree x) -> ainst cst ref x = Ok x) ->
+  shape_ok ref = true -> is_openT ref = false -> narrow ref -> term_leavesb ref = true ->
+  (forall x a b, inv ref a b -> (forall v, In v (afree x) -> In v (keys a)) -> aopen x = false ->
+     (aeval x a = Ok TT /\ adenote x (tenv ref b)) \/ (aeval x a = Ok FF /\ ~ adenote x (tenv ref b))) ->
+  forall f, wfm A afree aopen ref [cst] f -> me_nonempty f = true ->
+    (solver_check A afree aopen aeval ainst qmm reach count_open strategy2 ref cst f = Ok true <-> sat adenote ref cst f) /\
+    (solver_check A afree aopen aeval ainst qmm reach count_open strategy2 ref cst f = Ok false <-> ~ sat adenote ref cst f) /\
+    (forall e, solver_check A afree aopen aeval ainst qmm reach count_open strategy2 ref cst f <> Raise e).
+Proof. exact solver_check_correct. Qed.
+Print Assumptions C03_solver_check_correct_partial.
+
+(* the concrete atom family meets every premise made of substitute_expressions (closed tree) *)
+Theorem C03_atom_inst_sound : forall ref cst, is_openT ref = false ->
+  (forall x, exists y, atom_inst cst ref x = Ok y) /\
+  (forall x y, atom_inst cst ref x = Ok y -> forall v, In v (atom_free y) -> In v (atom_free x) /\ v <> cst) /\
+  (forall x y b b', atom_inst cst ref x = Ok y -> crel cst b b' ->
+     (atom_denote x (tenv ref b) <-> atom_denote y (tenv ref b'))) /\
+  (forall x, ~ In cst (atom_free x) -> atom_inst cst ref x = Ok x).
+Proof.
+  exact (fun ref cst H => conj (atom_inst_ok ref cst H) (conj (atom_inst_free ref cst H)
+          (conj (fun x y b b' => atom_inst_den ref cst H x y b b') (atom_inst_id ref cst H)))).
+Qed.
+Print Assumptions C03_atom_inst_sound.
+
+(* (1c),(2) concrete atoms: NO premise on atoms or on their instantiation *)
+Theorem C03_evaluate_correct_atoms : forall ref cst f,
+  shape_ok ref = true -> is_openT ref = false -> uniq_ids ref -> narrow ref -> term_leavesb ref = true ->
+  lbl ref = vtype cst -> vk cst = VConst ->
+  wfm atom atom_free (fun _ => false) ref [cst] f -> me_nonempty f = true ->
+  (m_evaluate ref cst f = Ok TT <-> sat atom_denote ref cst f) /\
+  (m_evaluate ref cst f = Ok FF <-> ~ sat atom_denote ref cst f) /\
+  m_evaluate ref cst f <> Ok UU /\ (forall e, m_evaluate ref cst f <> Raise e).
+Proof. exact evaluate_correct_atoms. Qed.
+Print Assumptions C03_evaluate_correct_atoms.
+
+Theorem C03_solver_check_correct_atoms : forall ref cst f,
+  shape_ok ref = true -> is_openT ref = false -> uniq_ids ref -> narrow ref -> term_leavesb ref = true ->
+  lbl ref = vtype cst -> vk cst = VConst ->
+  wfm atom atom_free (fun _ => false) ref [cst] f -> me_nonempty f = true ->
+  (m_check ref cst f = Ok true <-> sat atom_denote ref cst f) /\
+  (m_check ref cst f = Ok false <-> ~ sat atom_denote ref cst f) /\
+  (forall e, m_check ref cst f <> Raise e).
+Proof. exact solver_check_correct_atoms. Qed.
+Print Assumptions C03_solver_check_correct_atoms.
+
+(* all hypotheses as one boolean (evaluated by the harness on every generated first-strategy case) *)
+Theorem C03_evaluate_guard_sound : forall ref cst f, evaluate_guard ref cst f = true ->
+  shape_ok ref = true /\ is_openT ref = false /\ uniq_ids ref /\ narrow ref /\ term_leavesb ref = true /\
+  lbl ref = vtype cst /\ vk cst = VConst /\
+  wfm atom atom_free (fun _ => false) ref [cst] f /\ me_nonempty f = true.
+Proof. exact evaluate_guard_hyps. Qed.
+Print Assumptions C03_evaluate_guard_sound.
+
+(* (3) the dispatch of evaluate(), for EVERY formula (no guard): instantiate iff the constant occurs
+   free; then a numeric quantifier anywhere in the formula -> the second strategy
+   (eliminate_quantifiers + one Z3 validity query: the Section variable strategy2, an oracle that is
+   not modelled), otherwise evaluate_legacy with the empty dictionary.  Under the guard wfm (which
+   has no case for numeric quantifiers) the legacy branch is taken: C03_wfm_no_numq. *)
+Theorem C03_dispatch :
+  forall (A : Type) (afree : A -> list var) (aopen : A -> bool) (aeval : A -> asg -> res TV)
+         (ainst : var -> tree -> A -> res A)
+         (qmm : var -> path -> option mexpr -> asg -> path -> bool) (reach : str -> str -> bool)
+         (count_open : tree -> str -> Z -> res TV) (strategy2 : tree -> formula A -> res TV)
+         (ref : tree) (cst : var) (f : formula A),
+  evaluate A afree aopen aeval ainst qmm reach count_open strategy2 ref cst f =
+  match pre_inst A afree ainst ref cst f with
+  | Ok f' => if has_numq A f then strategy2 ref f'
+             else eval_legacy A afree aopen aeval qmm reach count_open ref f' []
+  | Raise e => Raise e
+  end.
+Proof. exact evaluate_dispatch. Qed.
+Print Assumptions C03_dispatch.
+
+Theorem C03_wfm_no_numq :
+  forall (A : Type) (afree : A -> list var) (aopen : A -> bool) (ref : tree) (f : formula A) D,
+  wfm A afree aopen ref D f -> me_nonempty f = true -> has_numq A f = false.
+Proof. exact wfm_no_numq. Qed.
+Print Assumptions C03_wfm_no_numq.
+
+(* non-vacuity: an API-built and a parsed (match expressions) UNINSTANTIATED formula on the parse
+   tree of "x := 1 ; y := x" / "x := 1 ; y := z" satisfy all hypotheses; verdicts FF, TT, FF *)
+Example C03_evaluate_hypotheses_satisfiable :
+  evaluate_guard E1_tree W_cst E2_formula = true /\ m_evaluate E1_tree W_cst E2_formula = Ok FF /\
+  m_check E1_tree W_cst E2_formula = Ok false /\
+  evaluate_guard M1_tree W_cst U1_formula = true /\ m_evaluate M1_tree W_cst U1_formula = Ok TT /\
+  m_check M1_tree W_cst U1_formula = Ok true /\
+  evaluate_guard M2_tree W_cst U1_formula = true /\ m_evaluate M2_tree W_cst U1_formula = Ok FF.
+Proof. exact evaluate_correct_example. Qed.
+Print Assumptions C03_evaluate_hypotheses_satisfiable.
+
+(* (4) REFUTED without fresh_name (the guard cannot be removed; evaluator side of K_rebound_name,
+   API-built formulas; reproduced on /repo):
+   FULL statement that fails: C03_evaluate_correct_atoms with wfm_nofresh in place of wfm.
+   R  = forall <assgn> a in start: exists <var> a in a: (= a "x") on "x := 1": two different
+        variables with one name (well_formed() accepts): atoms look variables up by NAME, the outer
+        `a` wins: evaluate FALSE, check False, specification TRUE (renamed inner variable: TRUE).
+   R2 = forall <expr> e in start: exists <expr> e in e: (= e "a") on "((a))": the same variable bound
+        twice (well_formed() rejects, evaluate() does not call it): `new | assignments` keeps the OLD
+        binding: evaluate FALSE, specification TRUE. *)
+Theorem C03_evaluate_rebound_refuted :
+  (evaluate_guard R_tree W_cst R_formula_renamed = true /\ m_evaluate R_tree W_cst R_formula_renamed = Ok TT) /\
+  (shape_ok R_tree = true /\ is_openT R_tree = false /\ uniq_ids R_tree /\ narrow R_tree /\
+   term_leavesb R_tree = true /\ lbl R_tree = vtype W_cst /\ vk W_cst = VConst /\
+   wfm_nofresh R_tree [W_cst] R_formula /\ me_nonempty R_formula = true /\
+   ~ wfm atom atom_free (fun _ => false) R_tree [W_cst] R_formula /\
+   m_evaluate R_tree W_cst R_formula = Ok FF /\ m_check R_tree W_cst R_formula = Ok false /\
+   sat atom_denote R_tree W_cst R_formula) /\
+  (shape_ok R2_tree = true /\ is_openT R2_tree = false /\ uniq_ids R2_tree /\ narrow R2_tree /\
+   term_leavesb R2_tree = true /\ lbl R2_tree = vtype W_cst /\ vk W_cst = VConst /\
+   wfm_nofresh R2_tree [W_cst] R2_formula /\ me_nonempty R2_formula = true /\
+   m_evaluate R2_tree W_cst R2_formula = Ok FF /\ m_check R2_tree W_cst R2_formula = Ok false /\
+   sat atom_denote R2_tree W_cst R2_formula).
+Proof. exact evaluate_rebound_refuted. Qed.
+Print Assumptions C03_evaluate_rebound_refuted.
+
+(* wfm_nofresh is wfm minus fresh_name *)
+Theorem C03_wfm_wfm_nofresh : forall ref f dom,
+  wfm atom atom_free (fun _ => false) ref dom f -> wfm_nofresh ref dom f.
+Proof. exact wfm_wfm_nofresh. Qed.
+Print Assumptions C03_wfm_wfm_nofresh.
